@@ -4,7 +4,8 @@ current tree and run all 20 quick checks on it. Every check has to exit 0. Write
 import json, os, subprocess, sys, tempfile, shutil, re
 from concurrent.futures import ThreadPoolExecutor
 root='/verif/benign'
-subprocess.run(['/verif/check','list','quick'],stdout=subprocess.DEVNULL,check=True)
+SV=os.environ.get('SV','/verif/bin/stgverif')   # SV=<dev binary>: no rebuild, matrix file not written
+if 'SV' not in os.environ: subprocess.run(['/verif/check','list','quick'],stdout=subprocess.DEVNULL,check=True)
 only=[a for a in sys.argv[1:] if not a.startswith('--')]
 props=[a[2:] for a in sys.argv[1:] if a.startswith('--C')]  # --C07 restricts the checks run
 def run(bid):
@@ -19,7 +20,7 @@ def run(bid):
             p='C%02d'%i
             if props and p[1:] not in [x[1:] for x in props] and p not in props: continue
             env=dict(os.environ,VERIF_REPO=t+'/repo',VERIF_EVIDENCE_DIR=t+'/ev')
-            r=subprocess.run(['/verif/bin/stgverif',p,'quick'],capture_output=True,text=True,env=env)
+            r=subprocess.run([SV,p,'quick'],capture_output=True,text=True,env=env)
             if r.returncode!=0:
                 lines=[l[:260] for l in r.stdout.splitlines() if re.match(r'^\S+: R[\w.\-]+:',l) or l.startswith('UNDECIDED')]
                 out[p]={"rc":r.returncode,"lines":lines[:6]}
@@ -44,5 +45,5 @@ with ThreadPoolExecutor(8) as ex:
                 for p,v in sorted(o.items()):
                     if isinstance(v,dict):
                         for l in v.get('lines',[]): print('    ',p,l)
-json.dump(dict(sorted(res.items())),open(mp,'w'),indent=1)
+if 'SV' not in os.environ: json.dump(dict(sorted(res.items())),open(mp,'w'),indent=1)
 n=sum(1 for v in res.values() if not v); print(n,'of',len(res),'silent on all checks')
